@@ -621,10 +621,10 @@ package log
 //@ func (*RollingFileAppender).clearExpiredFiles
 //@   requires c != nil && 0 <= c.MaxAge && c.MaxAge <= 2562047
 //@   modifies rm, lastNow, dirEntries, dirCount
-//@   ensures[C14:exactly-own-expired-never-the-file-being-written] rm == rmAll(dirEntries, dirCount, c.FileDir, c.FileName, time_add(lastNow, 0 - c.MaxAge * 3600000000000), curName(c), old(rm))
-//@   loop 1 invariant[C14:range] 0 <= $k && $k <= dirCount && dirCount == len(entries)
-//@   loop 1 invariant[C14:listing] forall j int :: 0 <= j && j < len(entries) ==> entries[j] == dirEntries[j] && entries[j] != nil
-//@   loop 1 invariant[C14:prefix] rm == rmAll(dirEntries, $k, c.FileDir, c.FileName, time_add(lastNow, 0 - c.MaxAge * 3600000000000), curName(c), old(rm))
+//@   ensures[C14,C19,C20:exactly-own-expired-never-the-file-being-written] rm == rmAll(dirEntries, dirCount, c.FileDir, c.FileName, time_add(lastNow, 0 - c.MaxAge * 3600000000000), curName(c), old(rm))
+//@   loop 1 invariant[C14,C19,C20:range] 0 <= $k && $k <= dirCount && dirCount == len(entries)
+//@   loop 1 invariant[C14,C19,C20:listing] forall j int :: 0 <= j && j < len(entries) ==> entries[j] == dirEntries[j] && entries[j] != nil
+//@   loop 1 invariant[C14,C19,C20:prefix] rm == rmAll(dirEntries, $k, c.FileDir, c.FileName, time_add(lastNow, 0 - c.MaxAge * 3600000000000), curName(c), old(rm))
 
 //@ func (*RollingFileAppender).isRotatedFile
 //@   requires c != nil
@@ -795,7 +795,7 @@ package log
 //@ func (*AsyncLogger).Stop
 //@   requires c != nil && c.buf != nil && !closed[c.buf] && c.stop != nil
 //@   modifies enq, deq, chlog, blocked, pooled, closed[c.buf]
-//@   ensures[C05:marker-then-wait-then-close] chlog == tsnoc(tsnoc(tsnoc(old(chlog), 9, c.buf, c.stop, typetag(*Event), ""), 11, c.wait, 0, 0, ""), 12, c.buf, 0, 0, "")
+//@   ensures[C04,C05:marker-then-wait-then-close] chlog == tsnoc(tsnoc(tsnoc(old(chlog), 9, c.buf, c.stop, typetag(*Event), ""), 11, c.wait, 0, 0, ""), 12, c.buf, 0, 0, "")
 //@   ensures[C05:buffer-closed] closed[c.buf]
 
 //@ func (*AsyncLogger).Start
@@ -899,7 +899,7 @@ package log
 //@   ghost stk[enc] = stk_key(old(stk[enc]))
 //@   ghost tok[enc] = tsnoc(old(tok[enc]), 20, 0, 0, 0, key)
 //@   ensures[C07:rep] json_rep(enc.last, stk[enc]) && stk_ok(stk[enc])
-//@   ensures[C07:token] enc.buf.out == bsnoc(bsnoc(binit(binit(enc.buf.out)), 34), 58) && Ext(bsnoc(old(preK(enc)), 34), binit(binit(enc.buf.out)), RP(key, len(key)))
+//@   ensures[C07,C09:token] enc.buf.out == bsnoc(bsnoc(binit(binit(enc.buf.out)), 34), 58) && Ext(bsnoc(old(preK(enc)), 34), binit(binit(enc.buf.out)), RP(key, len(key)))
 
 //@ func (*JSONEncoder).AppendBool
 //@   requires jsonOK(enc) && value_legal(stk[enc])
@@ -941,7 +941,7 @@ package log
 //@   ghost stk[enc] = stk_child_done(old(stk[enc]))
 //@   ghost tok[enc] = tsnoc(old(tok[enc]), 25, 0, 0, 0, v)
 //@   ensures[C07:rep] json_rep(enc.last, stk[enc]) && stk_ok(stk[enc])
-//@   ensures[C07:token] enc.buf.out == bsnoc(binit(enc.buf.out), 34) && Ext(bsnoc(old(preV(enc)), 34), binit(enc.buf.out), RP(v, len(v)))
+//@   ensures[C07,C09:token] enc.buf.out == bsnoc(binit(enc.buf.out), 34) && Ext(bsnoc(old(preV(enc)), 34), binit(enc.buf.out), RP(v, len(v)))
 
 //@ func (*JSONEncoder).AppendReflect
 //@   requires jsonOK(enc) && value_legal(stk[enc])
